@@ -17,6 +17,9 @@
 #include "EbUtility.h"
 #include "EbDecBlock.h"
 #include "EbDecHandle.h"
+#ifdef SVT_AV1_VERIF
+#include "EbVerifHooks.h"
+#endif
 #include "EbObuParse.h"
 #include "EbDecMemInit.h"
 #include "EbDecPicMgr.h"
@@ -2087,6 +2090,9 @@ void read_uncompressed_header(Bitstrm *bs, EbDecHandle *dec_handle_ptr, ObuHeade
         if (EB_FALSE == dec_handle_ptr->start_thread_process) {
             dec_system_resource_init(dec_handle_ptr, &tiles_info);
             dec_handle_ptr->start_thread_process = EB_TRUE;
+#ifdef SVT_AV1_VERIF
+            SVT_VERIF_SYNC_STORE(&dec_handle_ptr->start_thread_process);
+#endif
         }
         check_mt_support(dec_handle_ptr);
     }
